@@ -12,7 +12,7 @@ OPT_QUICK_ALL = True      # every partition also in a child interpreter started 
 LEVEL = "model_checking"
 TECHNIQUE = "exhaustive enumeration of (status byte x sense x transport x call path x raw flag) at depth 1 and of all status/command histories up to a depth bound on real device objects over stand-in bindings, judged by a status->outcome reference model"
 RULE = ("depth 1: all 256 status bytes x {SG_IO, iSCSI} x {device.execute, SCSI.execute} x raw-sense {off,on} x (READ(10) x 5 sense buffers + 7 other commands incl. ATA PASS-THROUGH with/without CK_COND), and all 256 "
-        "status bytes x both transports x each of the 38 facade methods on every command set offering it x 2 sense buffers, and CHECK CONDITION x 6 sense keys x 6 additional sense codes (thorough: 16 x 12) x fixed / descriptor format through every facade method; the same command inside `with device:` / `with SCSI(device):` blocks x 8 statuses x 6 values handed back by the binding's disconnect (the error must leave the block); histories: all "
+        "status bytes (over iSCSI also 12 status values beyond one byte incl. libiscsi's REDIRECT / CANCELLED / ERROR / TIMEOUT pseudo-statuses) x both transports x each of the 38 facade methods on every command set offering it x 2 sense buffers, and CHECK CONDITION x 6 sense keys x 6 additional sense codes (thorough: 16 x 12) x fixed / descriptor format through every facade method; the same command inside `with device:` / `with SCSI(device):` blocks x 8 statuses x 6 values handed back by the binding's disconnect (the error must leave the block); histories: all "
         "sequences up to length L (3 quick, 4 thorough) over {GOOD, CHECK CONDITION, BUSY, RESERVATION CONFLICT, 7Fh} x {TEST UNIT READY, "
         "READ(10), INQUIRY} on one device per transport, every step judged and every GOOD step's result compared with the target, once with a fresh facade call per step and once with one command object per kind submitted again at every step (retry loop); each CHECK CONDITION step carries its own distinct sense data; later steps also range over ATA PASS-THROUGH(16) facade calls (GOOD / CHECK CONDITION / transport I/O error), a refused ATA call (no block size) and transport errors during TEST UNIT READY (EIO, ENODEV, ENODEV while the node is being replaced). "
         "states = distinct canonical device/facade snapshots reached, transitions = commands executed in histories. Non-trivial = status "
@@ -53,6 +53,9 @@ def partitions(tier):
 
 
 # ---------------------------------------------------------------------------------
+WIDE_STATUS = (0x100, 0x101, 0x102, 0x200, 0x202, 0x10000, 0x0F000000, 0x0F000001, 0x0F000002, 0x7FFFFF00, -1, -256)
+
+
 def judge(transport, status, sensekind, raw, outcome, cmd, where):
     """outcome = ('ret', value) | ('exc', exception). returns violations"""
     kind, val = outcome
@@ -353,6 +356,16 @@ def run_partition(part, tier, seed):
                         do(["direct", tr, path, status, "fixed18", raw, ckind], status != 0)
                         acc.traces += 1
                         acc.transitions += 1
+        if tr == "iscsi":
+            # the binding hands back the task's status as a C int: libiscsi's own pseudo-statuses for "no status came back"
+            # (REDIRECT 101h, CANCELLED F000000h, ERROR F000001h, TIMEOUT F000002h) and other values beyond one byte are no GOOD either
+            for path in ("dev", "scsi"):
+                for status in WIDE_STATUS:
+                    for raw in (False, True):
+                        for ckind in (None, "ata16ck", "ata12", "write10", "tur", "inquiry"):
+                            do(["direct", tr, path, status, "fixed18", raw] + ([ckind] if ckind else []), True)
+                            acc.traces += 1
+                            acc.transitions += 1
     elif part[0] == "with":
         tr = part[1]
         for how in ("dev", "scsi"):
@@ -377,7 +390,7 @@ def run_partition(part, tier, seed):
                     acc.traces += 1
                     acc.transitions += 1
         for st in F.sets_offering(m):
-            for status in range(256):
+            for status in list(range(256)) + (list(WIDE_STATUS) if tr == "iscsi" else []):
                 for sk in ("fixed18", "desc8") + (("nosense",) if status == 2 else ()):
                     do(["facade", tr, m, st, status, sk], status != 0)
                     acc.traces += 1
